@@ -139,7 +139,25 @@ def interpH (j : Json) : R Json := do
   return jObj [("interp", jList jF (xs.map (fun x => Gnpy.Interp.interp x (Gnpy.Interp.sortKnots tab)))),
                ("interp1d", jList (jOpt jF) (xs.map (fun x => Gnpy.Interp.interp1d x tab)))]
 
+/-- `calculate_spontaneous_raman_scattering`: ASE per channel; every pump comes with its own profile and efficiency column -/
+def sprsH (j : Json) : R Json := do
+  let temp ← fF j "temperature"
+  let z ← fList getF j "z"
+  let baud ← fList getF j "baud"
+  let f ← fList getF j "f"
+  let loss ← fList (getList getF) j "loss"
+  let pf ← fList getF j "pump_f"
+  let pcr ← fList (getList getF) j "pump_cr"        -- per pump: efficiency onto every channel
+  let pprof ← fList (getList getF) j "pump_profile"
+  let idx := List.range f.length
+  let ase := (idx.zip (baud.zip (f.zip loss))).map (fun x =>
+    let i := x.1
+    let pumps : List (Gnpy.Raman.PumpAt Float) := (pf.zip (pcr.zip pprof)).map (fun q =>
+      { f := q.1, cr := (q.2.1[i]?).getD 0.0, profile := q.2.2 })
+    Gnpy.Raman.sprsChannel temp x.2.1 x.2.2.1 x.2.2.2 z pumps)
+  return jObj [("ase", jList jF ase)]
+
 def handlers : List (String × Handler) :=
-  [("c05.interp", interpH), ("c05.span", spanH), ("c05.path", pathH), ("c05.raman_uni", ramanUniH), ("c05.raman_fiber", ramanFiberH)]
+  [("c05.sprs", sprsH), ("c05.interp", interpH), ("c05.span", spanH), ("c05.path", pathH), ("c05.raman_uni", ramanUniH), ("c05.raman_fiber", ramanFiberH)]
 
 end Gnpy.Drv.C05
